@@ -354,6 +354,7 @@ structure MachOK (cfg : Cfg) (m : Mach) : Prop where
   wf : WF cfg m.st
   frames : ∀ sv ∈ m.stack, SavedOK cfg sv
   noErr : m.ctxErr = false
+  lastOK : ∀ sv, m.last = some sv → SavedOK cfg sv
 
 theorem saveRaises_of_WF {cfg s} (h : WF cfg s) : saveRaises s = false := by
   unfold saveRaises
@@ -367,26 +368,44 @@ theorem saveRaises_of_WF {cfg s} (h : WF cfg s) : saveRaises s = false := by
 theorem MachOK_step {cfg : Cfg} (hc : CfgOK cfg) {m : Mach} (c : Cmd) (h : MachOK cfg m) :
     MachOK cfg (stepCmd cfg c m).1 := by
   cases c with
-  | op o => exact ⟨WF_stepOp o h.wf, h.frames, h.noErr⟩
-  | enter =>
+  | op o => exact ⟨WF_stepOp o h.wf, h.frames, h.noErr, h.lastOK⟩
+  | enter r =>
     simp only [stepCmd, saveRaises_of_WF h.wf, Bool.false_eq_true, if_false]
-    refine ⟨h.wf, ?_, h.noErr⟩
-    intro sv hsv
-    simp only [List.mem_cons] at hsv
-    rcases hsv with rfl | hsv
-    · exact ⟨m.st, h.wf, rfl⟩
-    · exact h.frames sv hsv
-  | exit =>
+    refine ⟨h.wf, ?_, h.noErr, ?_⟩
+    · intro sv hsv
+      simp only [List.mem_cons] at hsv
+      rcases hsv with rfl | hsv
+      · exact ⟨m.st, h.wf, rfl⟩
+      · exact h.frames sv hsv
+    · intro sv hsv
+      cases r with
+      | true => simp at hsv
+      | false => exact h.lastOK sv (by simpa using hsv)
+  | exit v =>
     simp only [stepCmd]
     cases hstk : m.stack with
     | nil => exact h
     | cons sv rest =>
       simp only
-      obtain ⟨s, hs, rfl⟩ := h.frames sv (by rw [hstk]; simp)
+      have hsvok := h.frames sv (by rw [hstk]; simp)
+      obtain ⟨s, hs, rfl⟩ := hsvok
       rw [restore_raw hc hs h.wf]
-      refine ⟨WF_restoredState _ hs, ?_, by simp [h.noErr]⟩
-      intro sv' hsv'
-      exact h.frames sv' (by rw [hstk]; exact List.mem_cons_of_mem _ hsv')
+      refine ⟨WF_restoredState _ hs, ?_, by simp [h.noErr], ?_⟩
+      · intro sv' hsv'
+        exact h.frames sv' (by rw [hstk]; exact List.mem_cons_of_mem _ hsv')
+      · intro sv' hsv'
+        simp only [Option.some.injEq] at hsv'
+        subst hsv'
+        exact ⟨s, hs, rfl⟩
+  | restoreLast =>
+    simp only [stepCmd]
+    cases hl : m.last with
+    | none => exact h
+    | some sv =>
+      simp only
+      obtain ⟨s, hs, rfl⟩ := h.lastOK sv hl
+      rw [restore_raw hc hs h.wf]
+      exact ⟨WF_restoredState _ hs, h.frames, by simp [h.noErr], fun sv' hsv' => h.lastOK sv' (by simpa [hl] using hsv')⟩
 
 theorem MachOK_run {cfg : Cfg} (hc : CfgOK cfg) : ∀ (cs : List Cmd) {m : Mach}, MachOK cfg m →
     MachOK cfg (run cfg cs m)
@@ -402,9 +421,10 @@ theorem run_append (cfg : Cfg) : ∀ (a b : List Cmd) (m : Mach), run cfg (a ++ 
 def depthAfter : List Cmd → Nat → Option Nat
   | [], d => some d
   | .op _ :: r, d => depthAfter r d
-  | .enter :: r, d => depthAfter r (d + 1)
-  | .exit :: _, 0 => none
-  | .exit :: r, d + 1 => depthAfter r d
+  | .restoreLast :: r, d => depthAfter r d
+  | .enter _ :: r, d => depthAfter r (d + 1)
+  | .exit _ :: _, 0 => none
+  | .exit _ :: r, d + 1 => depthAfter r d
 
 /-- well-nested command sequence: every `exit` closes an `enter` of the same sequence, none left open -/
 def Balanced (cs : List Cmd) : Prop := depthAfter cs 0 = some 0
@@ -421,12 +441,17 @@ theorem run_stack {cfg : Cfg} : ∀ (cs : List Cmd) (d d' : Nat) (m : Mach) (pre
   | .op o :: r, d, d', m, pre, base, hm, hc, hd, hst, hl => by
     simp only [run]
     exact run_stack r d d' _ pre base (MachOK_step hc _ hm) hc hd (by simpa [stepCmd] using hst) hl
-  | .enter :: r, d, d', m, pre, base, hm, hc, hd, hst, hl => by
+  | .restoreLast :: r, d, d', m, pre, base, hm, hc, hd, hst, hl => by
+    simp only [run]
+    refine run_stack r d d' _ pre base (MachOK_step hc _ hm) hc hd ?_ hl
+    simp only [stepCmd]
+    cases m.last <;> simpa using hst
+  | .enter _ :: r, d, d', m, pre, base, hm, hc, hd, hst, hl => by
     simp only [run]
     refine run_stack r (d + 1) d' _ (save cfg m.st :: pre) base (MachOK_step hc _ hm) hc hd ?_ (by simp [hl])
     simp only [stepCmd, saveRaises_of_WF hm.wf, Bool.false_eq_true, if_false, hst, List.cons_append]
-  | .exit :: r, 0, d', m, pre, base, _, _, hd, _, _ => by simp [depthAfter] at hd
-  | .exit :: r, d + 1, d', m, pre, base, hm, hc, hd, hst, hl => by
+  | .exit _ :: r, 0, d', m, pre, base, _, _, hd, _, _ => by simp [depthAfter] at hd
+  | .exit _ :: r, d + 1, d', m, pre, base, hm, hc, hd, hst, hl => by
     simp only [run]
     cases pre with
     | nil => simp at hl
